@@ -45,6 +45,10 @@ def scopes(csv, auto, ops, outs, k):
         if kj in WRITE_KINDS:
             prev = (j, kj, hj)
             break
+    if kind == "file":
+        sc.add("C04")
+    if csv and kind in ("reopen", "all", "iter") and prev is not None:
+        sc.add("C04")
     if kind in QUERY_READS:
         sc.add("C01")
     if kind in GETTERS:
@@ -145,7 +149,7 @@ def shrink(tf, ck, case, k, still_diverges):
     return ops
 
 
-def run_tie(ck, tf, n_hist, profile, configs=CONFIGS, corpus=()):
+def run_tie(ck, tf, n_hist, profile, configs=CONFIGS, corpus=(), kwargs_for=None):
     """returns dict(divergences=[...], stats=...)"""
     gen_seed = ck.seed
     cases, meta = [], []
@@ -156,13 +160,16 @@ def run_tie(ck, tf, n_hist, profile, configs=CONFIGS, corpus=()):
         meta.append(("corpus", ops_c.get("name")))
     for h in range(n_hist):
         csv, auto = configs[h % len(configs)]
-        g = dbgen.Gen((gen_seed << 20) + h, profile)
+        kw = kwargs_for(h) if kwargs_for else None
+        prof = dict(profile, storage_kwargs=kw) if kw is not None else profile
+        g = dbgen.Gen((gen_seed << 20) + h, prof)
         ops = g.history(csv)
         cases.append((csv, auto, ops, None))
-        meta.append(("gen", h))
+        meta.append(("gen", h) if kw is None else ("gen", h, {k: str(v) for k, v in kw.items()}))
     done = []
     for ci, (csv, auto, ops, _) in enumerate(cases):
-        outs = dbimpl.run_history(tf, csv, auto, ops, str(ck.work / f"h{ci}"))
+        kw = kwargs_for(meta[ci][1]) if (kwargs_for and meta[ci][0] == "gen") else None
+        outs = dbimpl.run_history(tf, csv, auto, ops, str(ck.work / f"h{ci}"), kw)
         done.append((csv, auto, ops, outs))
         for o, x in zip(ops, outs):
             kinds[op_kind(o)] += 1
@@ -239,14 +246,14 @@ def nontrivial(case):
     return ok_w and ok_r
 
 
-def db_check(pid, tier, seed, profile, n_quick, n_thorough, prop_module, claims_note, extra_cov=None, direct=None):
+def db_check(pid, tier, seed, profile, n_quick, n_thorough, prop_module, claims_note, extra_cov=None, direct=None, configs=CONFIGS, kwargs_for=None):
     """generic driver for the properties decided on the database-level model"""
     ck = Check(pid, tier, seed)
     tf = use_impl()
     b = ck.build_proofs(prop_module, extra_targets=["Run.vo"])
     n = n_quick if tier == "quick" else n_thorough
     corpus = load_corpus(pid)
-    res = run_tie(ck, tf, n, profile, corpus=corpus)
+    res = run_tie(ck, tf, n, profile, configs=configs, corpus=corpus, kwargs_for=kwargs_for)
     cases = res["cases"]
     mine, elsewhere, known_hits = [], Counter(), Counter()
     for ci, k in res["divergences"]:
